@@ -20,6 +20,9 @@ CONSTANTS
   BugExtendNoToken = TRUE
   BugThreshold = FALSE
   BugIgnoreInval = FALSE
+  BugLostByCause = FALSE
+  BugNilNoGate = FALSE
+  DiscParkedOnly = FALSE
   Record = FALSE
   GenLen = 0
 INVARIANTS ExtendsOwnKeyOnly
